@@ -4,6 +4,7 @@ print a compact summary (oracle failures grouped, model mismatches). Development
 import sys, os, json, re, subprocess, collections
 ROOT = os.path.dirname(os.path.dirname(os.path.abspath(__file__)))
 sys.path.insert(0, ROOT)
+sys.path.insert(0, os.path.join(ROOT, 'lib'))
 import importlib.machinery, importlib.util
 loader = importlib.machinery.SourceFileLoader('check', os.path.join(ROOT, 'check'))
 spec = importlib.util.spec_from_loader('check', loader)
@@ -43,7 +44,8 @@ def main():
     lines = [r for r in recs if r.get('line')]
     if lines and os.path.exists(os.path.join(ck.OCAML, 'driver.exe')):
         outs = ck.run_model([r['line'] for r in lines])[1]
-        mm = [(r, o) for r, o in zip(lines, outs) if r.get('impl') != o]
+        import iso
+        mm = [(r, o) for r, o in zip(lines, outs) if (not iso.graph_iso(o, r.get('impl')) if r.get('k','').endswith('/iso') else r.get('impl') != o)]
         print('model cases', len(lines), 'mismatch', len(mm))
         for r, o in mm[:full]:
             print('--- mismatch', r.get('kind')); print('  impl :', r.get('impl', '')[:500]); print('  model:', o[:500]); print('  desc :', r.get('desc', '')[:500])
